@@ -345,6 +345,27 @@ func enumerateQueries(cfg genConfig) []*Query {
 			}
 		}
 	}
+	// a line filter at every position (before, between, after) relative to every ordered pair of drop /
+	// json-with-parameters / regexp / label filter stages (both tiers)
+	{
+		others := []Stage{dropAtoms()[0], dropAtoms()[4], jsonAtoms()[0], regexpAtoms()[0], {Kind: "label", Tree: leafS("b", "!=", "zz")}, {Kind: "label", Tree: leafS("p", "!=", "zz")}}
+		lfs3 := []Stage{{Kind: "line", Op: "|=", Val: "a"}, {Kind: "line", Op: "!~", Val: "a.b"}}
+		if cfg.thorough {
+			lfs3 = coreLF
+		}
+		for _, x := range others {
+			for _, lf := range lfs3 {
+				add(all, lf, x)
+				add(all, x, lf)
+				for _, y := range others {
+					add(all, lf, x, y)
+					add(all, x, lf, y)
+					add(all, x, y, lf)
+				}
+			}
+		}
+	}
+
 	// parser (or drop), label filter, then a parser that extracts the label the filter reads (both tiers)
 	{
 		heads := []Stage{jsonAtoms()[0], regexpAtoms()[0], dropAtoms()[1]}
